@@ -289,10 +289,13 @@ fn main() {
     // ---- jobs
     let mut jobs: Vec<Job> = vec![];
     let mut n_vec = 0u64;
+    let mut n_skipped = 0u64;
     let mut n_relay = 0usize;
     for f in &files {
         for v in read_tagged(f, "VEC") {
             let reqs: Vec<Value> = v["reqs"].as_array().unwrap().clone();
+            // (an origin-form request without a Host field exists on HTTP/1.1 only)
+            if reqs.iter().any(|r| r["kind"] == "getNoHost") { n_skipped += 1; continue; }
             if let Some(only) = &only_outcome {
                 if !reqs.iter().any(|r| r["outcome"].as_str() == Some(only.as_str())) {
                     continue;
@@ -350,7 +353,8 @@ fn main() {
             jobs.push(Job { v, reqs: reqs2, authn, sni, silent, fwd: Arc::new(fwd), ip: source_ip(idx as u32), icmp, own_endpoint, relay });
         }
     }
-    rep.count("vectors", n_vec);
+    rep.count("vectors", n_vec + n_skipped);
+    rep.count("vectors_http11_only", n_skipped);
 
     // ---- endpoints
     let server_rt = tokio::runtime::Builder::new_multi_thread().worker_threads(4).thread_name("endpoint").enable_all().build().unwrap();
